@@ -249,4 +249,32 @@ theorem argsort_zxy : argsort [2, 0, 1] = [1, 2, 0] := by decide
 theorem unperm_load (x y z c : Nat) : unperm [1, 2, 0, 3] [x, y, z, c] = [z, x, y, c] := rfl
 theorem unperm_load3 (x y z : Nat) : unperm [1, 2, 0] [x, y, z] = [z, x, y] := rfl
 
+/-! ## `read_imgs`: the extension dispatch -/
+
+/-- the reader class of a file extension -/
+def readerOf (ext : String) : Option String :=
+  if ext = ".tif" ∨ ext = ".tiff" then some "TiffImageStack"
+  else if ext = ".nrrd" then some "NrrdImageStack"
+  else if ext = ".v3dpbd" then some "V3dpbdImageStack"
+  else if ext = ".v3draw" then some "V3drawImageStack"
+  else if ext = ".npy" then some "NDArrayImageStack"
+  else none
+
+/-- the model of `read_imgs`: a missing file is a ValueError; the class is chosen by the extension, else TeraFly if the path is a TeraFly root, else
+ValueError; the keyword arguments are forwarded with `dtype` defaulting to `np.float32` -/
+def readModel (fname : String) (found isRoot : Bool) (kwargs : Py.Dict String DType) : Option (String × Py.Dict String DType) :=
+  if !found then none
+  else
+    let kw := Py.Dict.setdefault kwargs "dtype" DType.f32
+    match readerOf (splitExt fname) with
+    | some c => some (c, kw)
+    | none => if isRoot then some ("TeraflyImageStack", kw) else none
+
+theorem read_imgs_eq (fname : String) (found isRoot : Bool) (kwargs : Py.Dict String DType) :
+    read_imgs fname found isRoot kwargs = readModel fname found isRoot kwargs := by
+  simp only [read_imgs, read_imgs.body, Py.seq, Py.finish, Py.skip, readModel, readerOf]
+  obtain ⟨e, he⟩ : ∃ e, splitExt fname = e := ⟨_, rfl⟩
+  by_cases h1 : e = ".tif" ∨ e = ".tiff" <;> by_cases h2 : e = ".nrrd" <;> by_cases h3 : e = ".v3dpbd" <;> by_cases h4 : e = ".v3draw" <;>
+    by_cases h5 : e = ".npy" <;> cases found <;> cases isRoot <;> simp [he, h1, h2, h3, h4, h5]
+
 end RefineImgIo
